@@ -17,7 +17,7 @@ B_PURE = {"fclose", "getc", "ungetc", "ferror", "fflush", "stdin", "fputc", "fpu
           "_GLOBAL_OFFSET_TABLE_", "bcmp", "__stack_chk_fail", "__cyg_profile_func_enter", "__cyg_profile_func_exit",
           "_IO_getc", "_IO_putc", "__uflow", "__overflow", "__isoc99_sscanf", "fgetc", "putc_unlocked", "getc_unlocked",
           "__printf_chk", "__fprintf_chk", "__vfprintf_chk", "__snprintf_chk", "__memcpy_chk", "__memset_chk", "__strcpy_chk",
-          "__isoc23_strtoull", "__isoc23_strtoul", "__isoc23_strtol", "__isoc23_strtoll", "memchr", "strnlen", "isalnum", "isdigit", "isalpha", "isprint", "isspace", "isxdigit"}
+          "__isoc23_strtoull", "__isoc23_strtoul", "__isoc23_strtol", "__isoc23_strtoll", "memchr", "strnlen", "fseek", "fseeko", "ftell", "ftello", "rewind", "fgetpos", "fsetpos", "feof", "clearerr", "fileno", "setvbuf", "setbuf", "fread", "fgets", "fscanf", "isalnum", "isdigit", "isalpha", "isprint", "isspace", "isxdigit"}
 
 SAN = ["-fsanitize=address,undefined", "-fno-sanitize=pointer-overflow", "-fno-sanitize-recover=all", "-fno-omit-frame-pointer"]
 
